@@ -103,6 +103,10 @@ INPUTS = [
     I('url', BASE + 'bad.css', fetcher='badbytes', skip=1),                                   # 29
     I('string', 'a{color:red}/*c*/b{left:0}', pp=1, validate=False),                          # 30
     I('style', 'top:1px;top:2px !important', pp=1),                                           # 31
+    I('style', 'color:red;x-bogus:1', pp=1, validate=False),                                  # 32
+    I('style', 'color:red', pp=1, validate=True),                                             # 33
+    I('string', 'a{color:bogus}', pp=1, validate=True),                                       # 34
+    I('string', 'a{width:1.5px;opacity:0.5;z-index:12}', pp=1),                               # 35
 ]
 NO_FETCH = [i for i, x in enumerate(INPUTS) if x['fetcher'] is None]
 FAULTY = [i for i, x in enumerate(INPUTS) if x['flags'] & 31]
@@ -158,7 +162,7 @@ COMBINES = [
     I('combine', 'a{color:red} /*c*/', pp=1, minify=False, resolveVariables=True),
 ]
 NPREFS = 4
-NPROFS = 2
+NPROFS = 3      # 2: a custom profile shadowing a token macro added and removed again = registry state 0
 
 
 def ensure_files():
@@ -228,6 +232,9 @@ def apply_profiles(k):
     impl.fresh_profiles()
     if k == 1:
         cssutils.profile.defaultProfiles = cssutils.profile.CSS_LEVEL_2
+    elif k == 2:
+        cssutils.profile.addProfile('x-c12', {'x-c12-len': '{num}px|{int}'}, {'num': r'[0-9]+', 'int': r'[0-9]'})
+        cssutils.profile.removeProfile('x-c12')
 
 
 # ------------------------------------------------------------------ implementation side
@@ -285,6 +292,7 @@ class Session:
         else:
             apply_profiles(val)
             self.profile = cssutils.profile
+            val = val % 2        # 2 leaves the registry as 0 does
         self.exp[what] = val
 
 
@@ -293,6 +301,7 @@ def proj_rule(r):
     out = [r.type, r.cssText]
     if hasattr(r, 'style'):
         out.append(impl.jsonable(impl.proj_style(r.style)))
+        out.append([bool(p_.valid) for p_ in r.style.getProperties(all=True)])
     if hasattr(r, 'media'):
         out.append(r.media.mediaText)
     if hasattr(r, 'cssRules'):
@@ -309,9 +318,9 @@ def canon(x):
         return ['none']
     if isinstance(x, cssutils.css.CSSStyleSheet):
         return ['sheet', [proj_rule(r) for r in x.cssRules], x.cssText.decode('latin-1'), x.encoding, x.href,
-                x.media.mediaText]
+                x.media.mediaText, bool(x.validating)]
     if isinstance(x, cssutils.css.CSSStyleDeclaration):
-        return ['style', impl.jsonable(impl.proj_style(x)), x.cssText]
+        return ['style', impl.jsonable(impl.proj_style(x)), x.cssText, bool(x.validating)]
     if isinstance(x, bytes):
         return ['bytes', x.decode('latin-1')]
     return ['value', x]
@@ -528,7 +537,7 @@ def model_triple(st, flags, mode):
         return [5, 0, input_attr('combine', st[1])[0]]
     if k == 'edit':
         return [6, int(text_attr(st)[True][0]), 0]
-    return [{'mode': 7, 'prefs': 8, 'profiles': 9}[st[1]], int(st[2]), 0]
+    return [{'mode': 7, 'prefs': 8, 'profiles': 9}[st[1]], int(st[2]) % 2 if st[1] == 'profiles' else int(st[2]), 0]
 
 
 def check_tables(ctx):
@@ -635,7 +644,7 @@ def battery(nslots):
     b = [('mparse', i) for i in (0, 3, 10, 12, 13, 5, 17, 11, 20, 23)]
     b += [('new', 1), ('parse', nslots, 5), ('parse', nslots, 0), ('parse', nslots, 4), ('parse', nslots, 26)]
     b += [('query', 0), ('query', 4), ('construct', 0), ('construct', 3), ('construct', 7),
-          ('edit', 0), ('edit', 2), ('combine', 0)]
+          ('edit', 0), ('edit', 2), ('combine', 0), ('mparse', 35)]
     return b
 
 
@@ -907,11 +916,14 @@ def run(ctx):
                + [('construct', i) for i in range(N_STATIC['constructs'])] + [('edit', i) for i in range(len(EDITS))]
                + [('combine', i) for i in range(len(COMBINES))])
     for mode0 in (True, False):
+        for kprof in range(NPROFS):
+            histories.append((with_battery([('set', 'profiles', kprof)], 0), mode0, True))
         for c in singles:
             histories.append((with_battery([c], 0), mode0, True))
         for flag in (0, 1, 2):
             for i in range(N_INPUTS_STATIC):
-                histories.append((with_battery([('new', flag), ('parse', 0, i)], 1), mode0, True))
+                # ... and the same parser object used again afterwards
+                histories.append((with_battery([('new', flag), ('parse', 0, i), ('parse', 0, 34), ('parse', 0, 20), ('parse', 0, 0)], 1), mode0, True))
             # a long-lived parser called after the caller changed the mode
             for i in (0, 5, 6):
                 histories.append((with_battery([('new', flag), ('set', 'mode', int(not mode0)), ('parse', 0, i), ('parse', 0, i)], 1), mode0, True))
